@@ -19,6 +19,9 @@ theorem IENAQ_eq_sound (a b : QState) (h : QState.eq a b = true) : (QState.pack 
     obtain ⟨⟨⟨⟨⟨⟨h1, h2⟩, h3⟩, h4⟩, h5⟩, h6⟩, h7⟩ := hb
     simp_all
 
+example : QState.eq { QState.fresh with parameters := [⟨1, [0xAA, 0xBB, 0xCC]⟩] }
+    { base := { Base.fresh with size := 77 }, parameters := [⟨1, [0xAA, 0xBB, 0xCC]⟩] } = true := by decide
+
 /-- an object decoded (into an object in any prior state) from a's encoding compares equal to a, once
     a's cached payload is the one its parameters encode to (which `pack` itself establishes) -/
 theorem IENAQ_eq_decode (a t : QState) (h : C01.IENAQ_WF a) :
@@ -28,10 +31,17 @@ theorem IENAQ_eq_decode (a t : QState) (h : C01.IENAQ_WF a) :
   rw [C01.IENAQ_unpack_eq a t h, C01.IENAQ_pack_eq a h]
   simp [QState.eq, Base.eq, C01.IENAQ_base]
 
+example : C01.IENAQ_WF { QState.fresh with parameters := [⟨1, [0xAA, 0xBB, 0xCC]⟩, ⟨3, []⟩] } := by
+  refine ⟨by simp [QParam_WF], ?_⟩
+  simp [IENA_WF, C01.IENAQ_base, QState.fresh, Base.fresh, IENA_DEFAULT_ENDFIELD, encQb, padM]
+
 /-- IENA-D/N equality compares header fields, payload and parameters; `pack` emits header and payload -/
 theorem IENAD_eq_sound (a b : DState) (h : DState.eq a b = true) : (DState.pack a).2 = (DState.pack b).2 := by
   simp only [DState.eq, Bool.and_eq_true, beq_iff_eq] at h
   exact IENA_eq_sound _ _ h.1
+
+example : DState.eq { DState.fresh with parameters := [⟨1, 2, [3, 4]⟩] }
+    { base := { Base.fresh with size := 77 }, parameters := [⟨1, 2, [3, 4]⟩] } = true := by decide
 
 /-- an IENA-D object whose parameters are what its payload decodes to (every object a decode
     produced is such) compares equal to the object decoded from its encoding -/
@@ -44,9 +54,17 @@ theorem IENAD_eq_decode (hd : Base) (ps : List DParam) (t : DState) (hwf : IENA_
   · rw [C01.IENAD_unpack_eq hd ps t hwf hp]
     simp [DState.eq, Base.eq, C01.IENAD_packet]
 
+example : IENA_WF (C01.IENAD_packet { Base.fresh with keystatus := 0x1A } [⟨1, 2, [3, 4]⟩, ⟨5, 6, [7, 65535]⟩]) ∧
+    ∀ p ∈ [(⟨1, 2, [3, 4]⟩ : DParam), ⟨5, 6, [7, 65535]⟩], DParam_WF (0x1A % 8) p := by
+  refine ⟨?_, by simp [DParam_WF]⟩
+  simp [IENA_WF, C01.IENAD_packet, Base.fresh, IENA_DEFAULT_ENDFIELD, encDb, words16]
+
 theorem IENAN_eq_sound (a b : NState) (h : NState.eq a b = true) : (NState.pack a).2 = (NState.pack b).2 := by
   simp only [NState.eq, Bool.and_eq_true, beq_iff_eq] at h
   exact IENA_eq_sound _ _ h.1
+
+example : NState.eq { NState.fresh with parameters := [⟨1, [2, 3, 4]⟩] }
+    { base := { Base.fresh with size := 77 }, parameters := [⟨1, [2, 3, 4]⟩] } = true := by decide
 
 theorem IENAN_eq_decode (hd : Base) (ps : List NParam) (t : NState) (hwf : IENA_WF (C01.IENAN_packet hd ps))
     (hp : ∀ p ∈ ps, NParam_WF (hd.keystatus % 8) p) :
@@ -56,5 +74,10 @@ theorem IENAN_eq_decode (hd : Base) (ps : List NParam) (t : NState) (hwf : IENA_
   · simp only [NState.pack]; rw [IENA_pack_eq _ hwf]
   · rw [C01.IENAN_unpack_eq hd ps t hwf hp]
     simp [NState.eq, Base.eq, C01.IENAN_packet]
+
+example : IENA_WF (C01.IENAN_packet { Base.fresh with keystatus := 3 } [⟨1, [2, 3, 4]⟩]) ∧
+    ∀ p ∈ [(⟨1, [2, 3, 4]⟩ : NParam)], NParam_WF (3 % 8) p := by
+  refine ⟨?_, by simp [NParam_WF]⟩
+  simp [IENA_WF, C01.IENAN_packet, Base.fresh, IENA_DEFAULT_ENDFIELD, encNb, words16]
 
 end Acra.Props.C14
